@@ -72,6 +72,15 @@ pub broadcast proof fn axiom_bytes_from_vec(v: Vec<u8>)
 pub broadcast proof fn axiom_bytes_from_vec_obeys()
     ensures #[trigger] <Bytes as vstd::std_specs::convert::FromSpec<Vec<u8>>>::obeys_from_spec(),
 {}
+/// `Bytes: From<BytesMut>` (the conversion `BytesMut::freeze` performs) keeps the bytes
+#[verifier::external_body]
+pub broadcast proof fn axiom_bytes_from_bytesmut(b: BytesMut)
+    ensures bview(&#[trigger] <Bytes as vstd::std_specs::convert::FromSpec<BytesMut>>::from_spec(b)) == bmview(&b),
+{}
+#[verifier::external_body]
+pub broadcast proof fn axiom_bytes_from_bytesmut_obeys()
+    ensures #[trigger] <Bytes as vstd::std_specs::convert::FromSpec<BytesMut>>::obeys_from_spec(),
+{}
 /// T7: no buffer is longer than the user address space of the platform (x86-64: 2^47 bytes)
 #[verifier::external_body]
 pub broadcast proof fn axiom_vec_len_bound(v: &Vec<u8>)
@@ -279,7 +288,7 @@ pub broadcast proof fn axiom_ip6_len(a: std::net::Ipv6Addr)
 {}
 
 pub broadcast group group_trusted {
-    axiom_slice_eq, axiom_slice_obeys, axiom_string_index_range_req, axiom_string_index_range, axiom_string_index_from_req, axiom_string_index_from, axiom_starts_with_str, axiom_str_get_from, axiom_trim_start_str, axiom_strip_prefix_str, axiom_vec_bytes_dec_ok, axiom_vec_bytes_dec_post, axiom_lossy_utf8, axiom_bytes_from_vec, axiom_bytes_from_vec_obeys, axiom_vec_len_bound, axiom_bm_len_bound, axiom_arr_eq, axiom_arr_obeys, axiom_vec_eq, axiom_vec_obeys, axiom_string_str_eq, axiom_string_str_obeys, axiom_string_refstr_eq, axiom_string_refstr_obeys, axiom_lossy_v4, axiom_slice_ord, axiom_slice_pord_obeys,
+    axiom_slice_eq, axiom_slice_obeys, axiom_string_index_range_req, axiom_string_index_range, axiom_string_index_from_req, axiom_string_index_from, axiom_starts_with_str, axiom_str_get_from, axiom_trim_start_str, axiom_strip_prefix_str, axiom_vec_bytes_dec_ok, axiom_vec_bytes_dec_post, axiom_lossy_utf8, axiom_bytes_from_vec, axiom_bytes_from_vec_obeys, axiom_bytes_from_bytesmut, axiom_bytes_from_bytesmut_obeys, axiom_vec_len_bound, axiom_bm_len_bound, axiom_arr_eq, axiom_arr_obeys, axiom_vec_eq, axiom_vec_obeys, axiom_string_str_eq, axiom_string_str_obeys, axiom_string_refstr_eq, axiom_string_refstr_obeys, axiom_lossy_v4, axiom_slice_ord, axiom_slice_pord_obeys,
     axiom_vecu8_ord, axiom_vecu8_ord2, axiom_vecu8_borrow,
     axiom_contains_borrowed, axiom_maps_borrowed, axiom_removed_borrowed, axiom_vecu8_cmp,
     axiom_vec_ref, axiom_str_ref, axiom_vec_of, axiom_vec_from_str, axiom_vec_from_slice, axiom_vec_from_str_obeys, axiom_vec_from_slice_obeys, axiom_array_ref,
